@@ -132,6 +132,11 @@ pub struct ActionRec {
     pub action: Action,
     pub res: u8,
     pub detail: String,
+    /// connection status right after the call
+    pub conn_after: Vec<(bool, i32)>,
+    /// newest frame of every peer delivered to this node by the time of the call
+    pub delivered_at_call: Vec<(Addr, i32)>,
+    pub cur_before: i32,
 }
 
 #[derive(Clone, Debug, Default, serde::Serialize)]
@@ -161,6 +166,8 @@ pub struct NodeTrace {
     /// (round, sizes...) sampled each round when size tracking is on
     pub size_series: Vec<Vec<u32>>,
     pub conn: Vec<(bool, i32)>,
+    /// connection status when the first Disconnected event was drained
+    pub conn_at_disc: Vec<(bool, i32)>,
 }
 
 pub struct ExecResult {
@@ -177,6 +184,8 @@ pub struct ExecResult {
     pub new_states: u64,
     pub sniff: Vec<(i32, Addr, Addr, crate::wire::WMessage)>,
     pub last_recv_us: std::collections::HashMap<(Addr, Addr), u64>,
+    pub delivered_frames: std::collections::HashMap<(Addr, Addr), i32>,
+    pub recv_log: Vec<(Addr, Addr, u64)>,
     pub base_us: u64,
 }
 
@@ -704,6 +713,7 @@ pub fn run<C: HCfg>(scn: &Scenario, devs: &Devs, opt: &RunOpt) -> ExecResult {
         n.bg_loss_every = scn.background.loss_every;
         n.bg_delay_every = scn.background.delay_every;
         n.bg_until = scn.horizon;
+        n.track_frames = scn.has_disconnects() || !scn.specs.is_empty();
         if opt.sniff {
             n.sniff = Some(Vec::new());
         }
@@ -894,6 +904,7 @@ fn new_node<C: HCfg>(sess: Sess<C>, addr: Addr, is_spec: bool, window: usize, sc
             max_sizes: Vec::new(),
             size_series: Vec::new(),
             conn: Vec::new(),
+            conn_at_disc: Vec::new(),
         },
         dead: false,
         window,
@@ -968,11 +979,23 @@ fn step_node<C: HCfg>(
                         (R_PANIC, m)
                     }
                 };
+                let conn_after = if res == R_PANIC { Vec::new() } else { s.verif_connect_status() };
+                let me = n.tr.addr;
+                let delivered_at_call: Vec<(Addr, i32)> = net
+                    .borrow()
+                    .delivered_frames
+                    .iter()
+                    .filter(|((to, _), _)| *to == me)
+                    .map(|((_, from), f)| (*from, *f))
+                    .collect();
                 n.tr.actions.push(ActionRec {
                     round: rel,
                     action: a.clone(),
                     res,
                     detail,
+                    conn_after,
+                    delivered_at_call,
+                    cur_before: cur_frame,
                 });
                 if n.tr.crashed.is_some() {
                     return;
@@ -1169,8 +1192,14 @@ fn drain_events<C: HCfg>(n: &mut Node<C>, rel: i32, drain: bool) {
         Sess::P(s) => s.events().map(ev_of).collect(),
         Sess::S(s) => s.events().map(ev_of).collect(),
     };
+    let disc = evs.iter().any(|e| matches!(e, Ev::Disconnected { .. }));
     for e in evs {
         n.tr.events.push((rel, t, e));
+    }
+    if disc && n.tr.conn_at_disc.is_empty() {
+        if let Sess::P(s) = &n.sess {
+            n.tr.conn_at_disc = s.verif_connect_status();
+        }
     }
 }
 
@@ -1230,6 +1259,8 @@ fn finish<C: HCfg>(
         new_states,
         sniff,
         last_recv_us: nb.last_recv_us.clone(),
+        delivered_frames: nb.delivered_frames.clone(),
+        recv_log: std::mem::take(&mut nb.recv_log),
         base_us,
     }
 }
